@@ -194,13 +194,18 @@ static void trace_env(const char *k, int h, const char *f1, long v1, const char 
 }
 
 /* apply one due event or advance the clock to the next event / the end of the current block; 0 = nothing can ever happen */
+static int in_block;   /* free_step is being called for a call that has to block (not between calls) */
 static int free_step(int until)
 {
   int best_h = 0, best_t = -1;
   for (int h = 1; h < MAXH; h++) {
     int p = child_of(h);
-    if (p < 0 || K->proc[p].state != PS_RUNNING) continue;
+    if (p < 0) continue;
+    /* after its end only the descendant that inherited a child's descriptors can still do something: go away */
+    int post = fsch[h].next < fsch[h].n && !strcmp(fsch[h].ev[fsch[h].next].k, "ggone") && (K->proc[p].state == PS_ZOMBIE || K->proc[p].state == PS_REAPED);
+    if (K->proc[p].state != PS_RUNNING && !post) continue;
     int t = -1;
+    if (K->proc[p].state != PS_RUNNING) fsch[h].die_at = -1;   /* a child that has ended no longer reacts to a signal */
     if (fsch[h].die_at >= 0) t = fsch[h].die_at;
     if (fsch[h].next < fsch[h].n && (t < 0 || fsch[h].ev[fsch[h].next].t < t)) t = fsch[h].ev[fsch[h].next].t;
     if (t >= 0 && (best_t < 0 || t < best_t)) { best_t = t; best_h = h; }
@@ -213,7 +218,10 @@ static int free_step(int until)
       return 1;
     }
     struct sched_ev *e = &fsch[h].ev[fsch[h].next++];
-    if (!strcmp(e->k, "out") || !strcmp(e->k, "err")) {
+    if (!strcmp(e->k, "ggone")) { sk_grand_gone(p); trace_env("ggone", h, "x", 1, NULL, 0); }
+    else if (!strcmp(e->k, "exitg")) { sk_child_exit_keep(p, (e->a & 0xff) << 8); trace_env("exitg", h, "code", e->a, NULL, 0); }
+    else if (!strcmp(e->k, "eintr")) { if (in_block) { sk_interrupt = 1; trace_env("eintr", 0, NULL, 0, NULL, 0); } }  /* a signal handler of the caller runs: only a blocked call notices */
+    else if (!strcmp(e->k, "out") || !strcmp(e->k, "err")) {
       int tag = e->k[0] == 'o' ? 1 : 2;
       int ispipe = K->proc[p].fd[tag].ofd >= 0 && K->obj[K->ofd[K->proc[p].fd[tag].ofd].obj].kind == OK_PIPE;
       int w = sk_child_write(p, tag, e->a, tag, &coff[h][tag]);
@@ -240,7 +248,10 @@ static void on_term_later(int h)
 static int env_pull(void)
 {
   if (free_mode) {
-    if (free_step(sk_block_until)) return 1;
+    in_block = 1;
+    int ok = free_step(sk_block_until);
+    in_block = 0;
+    if (ok) return 1;
     stuck = 1;
     return 0;
   }
